@@ -114,7 +114,7 @@ Definition c01_wild_discipline_statement : Prop :=
     (c_fail_at cfg = None -> Forall (fun x => snd x = ROk) t /\ length t = length h).
 
 (* ... and the whole of c01_statement (with the re-feed clause) holds whenever the LIB number does not
-   decrease along the run of the never-failing handler: the exact condition that the two witnesses violate *)
+   decrease along the run of the never-failing handler: the exact condition that the re-feed witnesses violate *)
 Definition c01_wild_mono_statement : Prop :=
   forall cfg r0 m h,
     rooted_mode r0 m ->
@@ -148,8 +148,8 @@ Definition c01_wild_discovery_mono_statement : Prop :=
    streamable block.  (ReversibleSegment's guard "first streamable < num < LIB number => nil" then keeps every
    chain whose numbers lie under a too-high LIB number from being delivered, and a LIB reference with a lower
    number from being accepted.)  With it the whole of c01_statement holds for every well-formed history,
-   whatever the blocks declare and whatever the configured LIB is: both witnesses need a block AT or UNDER the
-   first streamable block. *)
+   whatever the blocks declare and whatever the configured LIB is: every re-feed witness feeds a block AT or UNDER
+   the first streamable block. *)
 Definition above_first_b (cfg : config) (h : list block) : bool := forallb (fun b => c_first cfg <? bnum b) h.
 
 Definition c01_wild_first_statement : Prop :=
